@@ -149,12 +149,24 @@ fn glob(pat: &str, s: &str) -> bool {
 }
 
 /// One unit of work: a seeded run, or a labelled workload item.
-#[derive(Clone, Debug)]
+#[derive(Clone)]
 enum Job {
     Seeded(u64),
     /// re-execution of a seeded run with the at-th signing call of (node, slot 0) failing
-    SignerFault { seed: u64, node: u8, slot: u8, at: u64 },
+    SignerFault { base: Arc<Trace>, node: u8, slot: u8, at: u64 },
     Workload(workloads::Item),
+}
+
+impl std::fmt::Debug for Job {
+    fn fmt(&self, f: &mut std::fmt::Formatter) -> std::fmt::Result {
+        match self {
+            Job::Seeded(s) => write!(f, "Seeded({s})"),
+            Job::SignerFault { base, node, slot, at } => {
+                write!(f, "SignerFault {{ seed: {}, node: {node}, slot: {slot}, at: {at} }}", base.seed)
+            }
+            Job::Workload(i) => write!(f, "Workload({i:?})"),
+        }
+    }
 }
 
 struct JobOut {
@@ -168,8 +180,8 @@ fn run_job(prop: &str, thorough: bool, job: &Job, keep_log: bool) -> JobOut {
             let (trace, res) = run::run_seeded(prop, *seed, thorough, keep_log);
             JobOut { trace, res }
         }
-        Job::SignerFault { seed, node, slot, at } => {
-            let (mut trace, _) = run::run_seeded(prop, *seed, thorough, false);
+        Job::SignerFault { base, node, slot, at } => {
+            let mut trace: Trace = (**base).clone();
             trace.events.insert(0, world::Event::ArmAbs { node: *node, slot: *slot, at: *at });
             trace.workload = "signer-fault-enumeration".into();
             let res = run::exec(&trace.nodes, &trace.events, trace.seed, prop, keep_log).expect("same set-up");
@@ -359,11 +371,12 @@ fn cmd_check(a: &[String]) -> i32 {
         let mut extra = Vec::new();
         for i in 0..sample.min(n_seeded) {
             if let Job::Seeded(seed) = jobs[i] {
-                let (_, res) = run::run_seeded(&prop, seed, args.thorough, false);
+                let (trace, res) = run::run_seeded(&prop, seed, args.thorough, false);
+                let base = Arc::new(trace);
                 for (node, slots) in res.sign_calls.iter().enumerate() {
                     for (slot, calls) in slots.iter().enumerate() {
                         for at in 1..=(*calls).min(60) {
-                            extra.push(Job::SignerFault { seed, node: node as u8, slot: slot as u8, at });
+                            extra.push(Job::SignerFault { base: base.clone(), node: node as u8, slot: slot as u8, at });
                         }
                     }
                 }
